@@ -286,50 +286,81 @@ Proof. vm_compute. reflexivity. Qed.
 Section CleanProofs.
 Variable sens : text -> bool.
 Variable str_of : json -> text.
+Variable repr_of : json -> text.
 Variable digest : text -> text.
 Variable colq : text -> text.
 
-Notation cv := (clean_val sens str_of digest colq).
-Notation cm := (clean_member sens str_of digest colq).
+Notation ca := (clean_at sens str_of repr_of digest colq).
+Notation cm := (clean_member sens str_of repr_of digest colq).
 
-Lemma clean_val_obj kvs : cv (JObj kvs) = CObj (map cm kvs).
+Lemma clean_at_obj m kvs : ca m (JObj kvs) = CObj (map cm kvs).
 Proof.
-  cbn [clean_val]. f_equal. induction kvs as [|[k v] kvs IH]; [reflexivity|].
+  cbn [clean_at]. f_equal. induction kvs as [|[k v] kvs IH]; [reflexivity|].
   cbn [map]. rewrite <- IH. reflexivity.
 Qed.
 
-Definition clear_path (p : list nat) (j : json) : bool := forallb (fun k => negb (sens k)) (jkeys p j).
-
-(* along a path of non-sensitive keys the cleaned tree holds clean(subtree) *)
-Lemma clean_commutes p : forall j v, clear_path p j = true -> jget p j = Some v -> cget p (cv j) = Some (cv v).
+Lemma clean_at_arr m l : m || existsb is_container l = true -> ca m (JArr l) = CArr (map (ca true) l).
 Proof.
-  induction p as [|i p IH]; intros j v Hc Hg.
-  - cbn in Hg. injection Hg as <-. reflexivity.
-  - destruct j as [| | | | |kvs]; try discriminate.
-    cbn [jget] in Hg. unfold clear_path in Hc. cbn [jkeys] in Hc.
-    destruct (nth_error kvs i) as [[k w]|] eqn:E; [|discriminate].
-    cbn [forallb] in Hc. apply andb_true_iff in Hc as [Hk Hc]. apply negb_true_iff in Hk.
-    rewrite clean_val_obj. cbn [cget]. rewrite nth_error_map, E. cbn [option_map].
-    unfold clean_member at 1. cbn [fst snd]. rewrite Hk. now apply IH.
+  intros H. cbn [clean_at]. rewrite H. reflexivity.
 Qed.
 
-Lemma clean_redacts p i : forall j kvs k v,
-  clear_path p j = true -> jget p j = Some (JObj kvs) -> nth_error kvs i = Some (k, v) -> sens k = true ->
-  cget (p ++ [i]) (cv j) = Some (CRedacted (digest (str_of v))) /\
-  forall q, q <> [] -> cget ((p ++ [i]) ++ q) (cv j) = None.
+Lemma jget_container p x kvs : jget p x = Some (JObj kvs) -> is_container x = true.
 Proof.
-  intros j kvs k v Hc Hg Hn Hs.
-  assert (A : forall q, cget ((p ++ [i]) ++ q) (cv j) = cget q (CRedacted (digest (str_of v)))).
-  { intros q. revert j Hc Hg. induction p as [|a p IH]; intros j Hc Hg.
-    - cbn in Hg. injection Hg as ->. rewrite clean_val_obj. cbn [app cget].
-      rewrite nth_error_map, Hn. cbn [option_map]. unfold clean_member. cbn [fst snd]. now rewrite Hs.
-    - destruct j as [| | | | |kvs0]; try discriminate.
+  destruct p; cbn [jget]; intros H.
+  - injection H as ->. reflexivity.
+  - destruct x; try discriminate; reflexivity.
+Qed.
+
+Lemma has_container l a x : nth_error l a = Some x -> is_container x = true -> existsb is_container l = true.
+Proof. intros E C. apply existsb_exists. exists x. split; [eapply nth_error_In; exact E | exact C]. Qed.
+
+Definition clear_path (p : list nat) (j : json) : bool := forallb (fun k => negb (sens k)) (jkeys p j).
+
+(* along a path of non-sensitive keys through cleaned arrays the cleaned tree holds clean(subtree) *)
+Lemma clean_commutes p : forall j m m' v,
+  clear_path p j = true -> walk m p j = Some m' -> jget p j = Some v -> cget p (ca m j) = Some (ca m' v).
+Proof.
+  induction p as [|a p IH]; intros j m m' v Hc Hw Hg.
+  - cbn in Hw, Hg. injection Hw as <-. injection Hg as <-. reflexivity.
+  - destruct j as [| | | |l|kvs]; try discriminate.
+    + cbn [walk] in Hw. destruct (m || existsb is_container l) eqn:C; [|discriminate].
       cbn [jget] in Hg. unfold clear_path in Hc. cbn [jkeys] in Hc.
+      destruct (nth_error l a) as [x|] eqn:E; [|discriminate].
+      rewrite (clean_at_arr _ _ C). cbn [cget]. rewrite nth_error_map, E. cbn [option_map]. now apply IH.
+    + cbn [walk] in Hw. cbn [jget] in Hg. unfold clear_path in Hc. cbn [jkeys] in Hc.
+      destruct (nth_error kvs a) as [[k w]|] eqn:E; [|discriminate].
+      cbn [forallb] in Hc. apply andb_true_iff in Hc as [Hk Hc]. apply negb_true_iff in Hk.
+      rewrite clean_at_obj. cbn [cget]. rewrite nth_error_map, E. cbn [option_map].
+      unfold clean_member at 1. cbn [fst snd]. rewrite Hk. unfold clean_val. now apply IH.
+Qed.
+
+Lemma clean_redacts_gen p i : forall j m kvs k v,
+  clear_path p j = true -> jget p j = Some (JObj kvs) -> nth_error kvs i = Some (k, v) -> sens k = true ->
+  forall q, cget ((p ++ [i]) ++ q) (ca m j) = cget q (CRedacted (digest (str_of v))).
+Proof.
+  induction p as [|a p IH]; intros j m kvs k v Hc Hg Hn Hs q.
+  - cbn in Hg. injection Hg as ->. rewrite clean_at_obj. cbn [app cget].
+    rewrite nth_error_map, Hn. cbn [option_map]. unfold clean_member. cbn [fst snd]. now rewrite Hs.
+  - destruct j as [| | | |l|kvs0]; try discriminate.
+    + cbn [jget] in Hg. unfold clear_path in Hc. cbn [jkeys] in Hc.
+      destruct (nth_error l a) as [x|] eqn:E; [|discriminate].
+      rewrite clean_at_arr
+        by (rewrite (has_container _ _ _ E (jget_container _ _ _ Hg)); apply orb_true_r).
+      cbn [app cget]. rewrite nth_error_map, E. cbn [option_map]. now apply IH with (kvs := kvs) (k := k).
+    + cbn [jget] in Hg. unfold clear_path in Hc. cbn [jkeys] in Hc.
       destruct (nth_error kvs0 a) as [[k0 w]|] eqn:E; [|discriminate].
       cbn [forallb] in Hc. apply andb_true_iff in Hc as [Hk Hc]. apply negb_true_iff in Hk.
-      rewrite clean_val_obj. cbn [app cget]. rewrite nth_error_map, E. cbn [option_map].
-      unfold clean_member at 1. cbn [fst snd]. rewrite Hk. now apply IH. }
-  split.
+      rewrite clean_at_obj. cbn [app cget]. rewrite nth_error_map, E. cbn [option_map].
+      unfold clean_member at 1. cbn [fst snd]. rewrite Hk. unfold clean_val.
+      now apply IH with (kvs := kvs) (k := k).
+Qed.
+
+Lemma clean_redacts p i j m kvs k v :
+  clear_path p j = true -> jget p j = Some (JObj kvs) -> nth_error kvs i = Some (k, v) -> sens k = true ->
+  cget (p ++ [i]) (ca m j) = Some (CRedacted (digest (str_of v))) /\
+  forall q, q <> [] -> cget ((p ++ [i]) ++ q) (ca m j) = None.
+Proof.
+  intros Hc Hg Hn Hs. pose proof (clean_redacts_gen p i j m kvs k v Hc Hg Hn Hs) as A. split.
   - rewrite <- (app_nil_r (p ++ [i])). now rewrite A.
   - intros q Hq. rewrite A. destruct q; [congruence | reflexivity].
 Qed.
@@ -349,30 +380,61 @@ Proof.
 Qed.
 
 Lemma ni_step (f1 f2 : json -> json) k : sens k = false ->
-  forall kvs a w, nth_error kvs a = Some (k, w) -> cv (f1 w) = cv (f2 w) ->
+  forall kvs a w, nth_error kvs a = Some (k, w) -> ca false (f1 w) = ca false (f2 w) ->
   map cm (replace_nth a (fun kv => (fst kv, f1 (snd kv))) kvs) = map cm (replace_nth a (fun kv => (fst kv, f2 (snd kv))) kvs).
 Proof.
   intros Hk kvs. induction kvs as [|kv kvs IH]; intros a w Hn He; [destruct a; reflexivity|].
   destruct a as [|a]; cbn [replace_nth map].
-  - cbn in Hn. injection Hn as ->. f_equal. unfold clean_member. cbn [fst snd]. now rewrite Hk, He.
+  - cbn in Hn. injection Hn as ->. f_equal. unfold clean_member, clean_val. cbn [fst snd]. now rewrite Hk, He.
   - f_equal. now apply IH with (w := w).
 Qed.
 
-Lemma clean_noninterference p i : forall j kvs k v0 v1 v2,
+Lemma ni_step_arr (f1 f2 : json -> json) :
+  forall l a x, nth_error l a = Some x -> ca true (f1 x) = ca true (f2 x) ->
+  map (ca true) (replace_nth a f1 l) = map (ca true) (replace_nth a f2 l).
+Proof.
+  induction l as [|y l IH]; intros a x Hn He; [destruct a; reflexivity|].
+  destruct a as [|a]; cbn [replace_nth map].
+  - cbn in Hn. injection Hn as ->. now rewrite He.
+  - f_equal. now apply IH with (x := x).
+Qed.
+
+Lemma jset_container q v x : q <> [] -> is_container x = true -> is_container (jset q v x) = true.
+Proof. destruct q; [congruence|]. intros _. destruct x; try discriminate; reflexivity. Qed.
+
+Lemma has_container_replace (f : json -> json) : forall l a x,
+  nth_error l a = Some x -> is_container (f x) = true -> existsb is_container (replace_nth a f l) = true.
+Proof.
+  induction l as [|y l IH]; intros a x Hn C; [destruct a; discriminate|].
+  destruct a as [|a]; cbn [replace_nth existsb].
+  - cbn in Hn. injection Hn as ->. now rewrite C.
+  - rewrite (IH a x Hn C). apply orb_true_r.
+Qed.
+
+Lemma clean_noninterference p i : forall j m kvs k v0 v1 v2,
   clear_path p j = true -> jget p j = Some (JObj kvs) -> nth_error kvs i = Some (k, v0) -> sens k = true ->
   digest (str_of v1) = digest (str_of v2) ->
-  cv (jset (p ++ [i]) v1 j) = cv (jset (p ++ [i]) v2 j).
+  ca m (jset (p ++ [i]) v1 j) = ca m (jset (p ++ [i]) v2 j).
 Proof.
-  induction p as [|a p IH]; intros j kvs k v0 v1 v2 Hc Hg Hn Hs Hd.
-  - cbn in Hg. injection Hg as ->. cbn [app jset]. rewrite !clean_val_obj. f_equal.
+  induction p as [|a p IH]; intros j m kvs k v0 v1 v2 Hc Hg Hn Hs Hd.
+  - cbn in Hg. injection Hg as ->. cbn [app jset]. rewrite !clean_at_obj. f_equal.
     now apply ni_base with (k := k) (v0 := v0).
-  - destruct j as [| | | | |kvs0]; try discriminate.
-    cbn [jget] in Hg. unfold clear_path in Hc. cbn [jkeys] in Hc.
-    destruct (nth_error kvs0 a) as [[k0 w]|] eqn:E; [|discriminate].
-    cbn [forallb] in Hc. apply andb_true_iff in Hc as [Hk Hc]. apply negb_true_iff in Hk.
-    cbn [app jset]. rewrite !clean_val_obj. f_equal.
-    apply ni_step with (f1 := jset (p ++ [i]) v1) (f2 := jset (p ++ [i]) v2) (k := k0) (w := w); try assumption.
-    now apply IH with (kvs := kvs) (k := k) (v0 := v0).
+  - destruct j as [| | | |l|kvs0]; try discriminate.
+    + cbn [jget] in Hg. unfold clear_path in Hc. cbn [jkeys] in Hc.
+      destruct (nth_error l a) as [x|] eqn:E; [|discriminate].
+      assert (Q : p ++ [i] <> []) by (destruct p; discriminate).
+      pose proof (jget_container _ _ _ Hg) as Cx.
+      cbn [app jset].
+      rewrite !clean_at_arr
+        by (rewrite (has_container_replace _ _ _ _ E (jset_container _ _ _ Q Cx)); apply orb_true_r).
+      f_equal. apply ni_step_arr with (x := x); [exact E|].
+      now apply IH with (kvs := kvs) (k := k) (v0 := v0).
+    + cbn [jget] in Hg. unfold clear_path in Hc. cbn [jkeys] in Hc.
+      destruct (nth_error kvs0 a) as [[k0 w]|] eqn:E; [|discriminate].
+      cbn [forallb] in Hc. apply andb_true_iff in Hc as [Hk Hc]. apply negb_true_iff in Hk.
+      cbn [app jset]. rewrite !clean_at_obj. f_equal.
+      apply ni_step with (f1 := jset (p ++ [i]) v1) (f2 := jset (p ++ [i]) v2) (k := k0) (w := w); try assumption.
+      now apply IH with (kvs := kvs) (k := k) (v0 := v0).
 Qed.
 End CleanProofs.
 
@@ -515,7 +577,7 @@ Lemma sanitize_clean_branch sens parse digest can record pre m o :
     sanitize_core sens parse digest can record =
       join [bar] (firstn i (split bar (color_code can record)) ++
                   [T " " ++ json_dumps_flat (render_obj colours_on
-                     (clean_obj sens py_str digest (colour_quotes colours_on) o'))]).
+                     (clean_obj sens py_str py_repr digest (colour_quotes colours_on) o'))]).
 Proof.
   intros Hc Hpre Hp. destruct (tail_found parse pre m o Hpre Hp) as [i [o' [F S]]].
   exists i, o'. rewrite Hc. split; [exact S|]. unfold sanitize_core. rewrite Hc, F. reflexivity.
@@ -531,30 +593,47 @@ Proof.
   apply andb_true_iff in H as [H1 H2]. apply negb_true_iff in H2. now rewrite (code_iff_spec k H2).
 Qed.
 
-Lemma clean_redacts_spec (str_of : json -> text) (digest colq : text -> text) j p i kvs k v :
+Lemma clean_redacts_spec (str_of repr_of : json -> text) (digest colq : text -> text) j p i kvs k v :
   forallb plain_key (jkeys p j) = true ->
   jget p j = Some (JObj kvs) -> nth_error kvs i = Some (k, v) -> sensitive_spec k = true ->
-  cget (p ++ [i]) (clean_val sensitive_code str_of digest colq j) = Some (CRedacted (digest (str_of v))) /\
-  forall q, q <> [] -> cget ((p ++ [i]) ++ q) (clean_val sensitive_code str_of digest colq j) = None.
+  cget (p ++ [i]) (clean_val sensitive_code str_of repr_of digest colq j) = Some (CRedacted (digest (str_of v))) /\
+  forall q, q <> [] -> cget ((p ++ [i]) ++ q) (clean_val sensitive_code str_of repr_of digest colq j) = None.
 Proof.
-  intros Hc Hg Hn Hs. apply clean_redacts with (kvs := kvs) (k := k); try assumption.
+  intros Hc Hg Hn Hs. unfold clean_val. apply clean_redacts with (kvs := kvs) (k := k); try assumption.
   - apply plain_keys_clear, Hc.
   - now apply spec_implies_code.
 Qed.
 
-Lemma clean_keeps_spec (str_of : json -> text) (digest colq : text -> text) j p v :
-  forallb plain_key (jkeys p j) = true -> jget p j = Some v ->
-  cget p (clean_val sensitive_code str_of digest colq j) =
-    Some (match v with
-          | JObj kvs => CObj (clean_obj sensitive_code str_of digest colq kvs)
-          | _ => CLeaf (colq (str_of v))
-          end) /\
-  forall kvs, map fst (clean_obj sensitive_code str_of digest colq kvs) = map fst kvs.
+Lemma clean_keeps_spec (str_of repr_of : json -> text) (digest colq : text -> text) j p m v :
+  forallb plain_key (jkeys p j) = true -> walk false p j = Some m -> jget p j = Some v ->
+  cget p (clean_val sensitive_code str_of repr_of digest colq j) =
+    Some (clean_at sensitive_code str_of repr_of digest colq m v).
 Proof.
-  intros Hc Hg. split.
-  - rewrite (clean_commutes sensitive_code str_of digest colq p j v (plain_keys_clear _ Hc) Hg).
-    destruct v; try reflexivity. now rewrite clean_val_obj.
-  - intros kvs. apply clean_keeps_keys.
+  intros Hc Hw Hg. unfold clean_val.
+  exact (clean_commutes sensitive_code str_of repr_of digest colq p j false m v (plain_keys_clear _ Hc) Hw Hg).
+Qed.
+
+(* what clean(subtree) is, by the kind of subtree *)
+Lemma clean_shape (sens : text -> bool) (str_of repr_of : json -> text) (digest colq : text -> text) :
+  (forall m kvs, clean_at sens str_of repr_of digest colq m (JObj kvs) =
+                 CObj (clean_obj sens str_of repr_of digest colq kvs) /\
+                 map fst (clean_obj sens str_of repr_of digest colq kvs) = map fst kvs) /\
+  (forall m l, m || existsb is_container l = true ->
+               clean_at sens str_of repr_of digest colq m (JArr l) =
+               CArr (map (clean_at sens str_of repr_of digest colq true) l)) /\
+  (forall l, existsb is_container l = false ->
+             clean_at sens str_of repr_of digest colq false (JArr l) = CLeaf (colq (str_of (JArr l)))) /\
+  (forall v, is_container v = false ->
+             clean_at sens str_of repr_of digest colq false v = CLeaf (colq (str_of v)) /\
+             clean_at sens str_of repr_of digest colq true v = CItem (repr_of v)).
+Proof.
+  repeat split.
+  - apply clean_at_obj.
+  - apply clean_keeps_keys.
+  - intros m l H. now apply clean_at_arr.
+  - intros l H. cbn [clean_at]. now rewrite H.
+  - destruct v; try discriminate; reflexivity.
+  - destruct v; try discriminate; reflexivity.
 Qed.
 
 Definition record_of (j : json) : obj := match j with JObj o => o | _ => [] end.
@@ -567,19 +646,18 @@ Lemma output_depends_on_digest_only (digest : text -> text) colorize o p i kvs k
   clean_record_model digest colorize (record_of (jset (p ++ [i]) v2 (JObj o))).
 Proof.
   intros Hc Hg Hn Hs Hd.
-  pose proof (clean_noninterference sensitive_code py_str digest (colour_quotes (colours_of colorize))
-                p i (JObj o) kvs k v0 v1 v2 (plain_keys_clear _ Hc) Hg Hn (spec_implies_code k Hs) Hd) as NI.
+  pose proof (clean_noninterference sensitive_code py_str py_repr digest (colour_quotes (colours_of colorize))
+                p i (JObj o) false kvs k v0 v1 v2 (plain_keys_clear _ Hc) Hg Hn (spec_implies_code k Hs) Hd) as NI.
   destruct (p ++ [i]) as [|a q] eqn:E; [now destruct p|].
-  cbn [jset] in NI |- *. rewrite !clean_val_obj in NI. injection NI as NI.
+  cbn [jset] in NI |- *. rewrite !clean_at_obj in NI. injection NI as NI.
   unfold clean_record_model, clean_obj, record_of. now rewrite NI.
 Qed.
 
-Lemma array_members_not_cleaned :
-  exists (secret : text) (o : obj),
-    o = [(T "items", JArr [JObj [(T "password", JStr secret)]])] /\
-    sensitive_spec (T "password") = true /\
-    contains secret (json_dumps_flat (clean_record_model (fun _ => T "00000000") false o)) = true.
-Proof.
-  exists (T "hunter2"), [(T "items", JArr [JObj [(T "password", JStr (T "hunter2"))]])].
-  split; [reflexivity|]. split; vm_compute; reflexivity.
-Qed.
+(* the former witness of F-C20-4, now positive, for every secret and every str/repr/digest/colouring *)
+Lemma array_members_cleaned (str_of repr_of : json -> text) (digest colq : text -> text) (secret : json) :
+  clean_val sensitive_code str_of repr_of digest colq
+    (JObj [(T "items", JArr [JObj [(T "password", secret)]; JStr (T "x"); JArr [JObj [(T "api_key", secret)]]])]) =
+  CObj [(T "items", CArr [CObj [(T "password", CRedacted (digest (str_of secret)))];
+                          CItem (repr_of (JStr (T "x")));
+                          CArr [CObj [(T "api_key", CRedacted (digest (str_of secret)))]]])].
+Proof. vm_compute. reflexivity. Qed.
